@@ -23,7 +23,8 @@ LEVEL = 'exploration'
 TECHNIQUE = 'bounded exhaustive enumeration: all (array length, shift, fill) triples for the helpers; all index-site combinations of an expression grammar x span types for eval(), against direct Python evaluation'
 RULE = ('helpers: arrays of length 0..5 (quick) / 0..7 (thorough) x p,d in [-n-1,n+1] x 3 fills x {lag,lead,diff,dlog} x 2 dtypes; eval: 7 templates with 1..3 index '
         'sites x 25 site forms (10 positional, 15 backticked) x 11 span types (negative integer labels, unsorted NumPy labels), plus name-resolution cases incl. 14 variables named like container attributes/methods. '
-        'non-trivial = helper call with a non-empty array / expression with at least one index site')
+        'non-trivial = helper call with a non-empty array / expression with at least one index site'
+        " Helpers on int64 beyond 2**53, complex and bool arrays in their own arithmetic (13 shifts x 3 fills); a caller's own and an empty helper table.")
 ASSUMPTIONS = [
     'mixed positional/label slices (X[1:`2003`]) and non-literal index expressions next to backticks are outside the property',
     'diff for d < 0 is not defined by the statement (NotImplementedError accepted)',
@@ -86,6 +87,43 @@ def run_helper_case(case):
     elif not np.array_equal(np.asarray(got, dtype=float), want, equal_nan=True):
         key = '%s:d==0' % fn if (fn in ('diff', 'dlog') and k == 0) else '%s:values' % fn
         out.append((key, want.tolist(), np.asarray(got).tolist(), '%s(x, %d) differs from its definition' % (fn, k)))
+    return out
+
+
+@robust()
+def run_helper_exact_case(case):
+    """The definitions hold element for element in the array's own arithmetic: integers beyond 2**53, complex numbers, booleans
+    (an integer / boolean fill where the dtype cannot hold NaN)."""
+    fn, k, dt = case['fn'], case['k'], case['dtype']
+    if dt == 'int64':
+        x = np.array([2 ** 53 + 1, 2 ** 53 + 3, 5, -(2 ** 60) - 1, 7], dtype=np.int64)
+        fill = case['fill']
+    elif dt == 'complex':
+        x = np.array([1 + 2j, 3 - 1j, 0.5j, -2.25 + 0j, 4 + 4j])
+        fill = case['fill'] * (1 + 1j)
+    else:
+        x = np.array([True, False, True, True, False])
+        fill = bool(case['fill'] % 2)
+    keep = x.copy()
+    items = keep.tolist()
+    n = len(items)
+    if fn in ('lag', 'lead'):
+        p = k if fn == 'lag' else -k
+        want = [items[i - p] if 0 <= i - p < n else fill for i in range(n)]
+        got = (ff.lag if fn == 'lag' else ff.lead)(x, k, fill_value=fill)
+    else:
+        if k < 0 or dt == 'bool':
+            return []
+        want = [items[i] - items[i - k] if i >= k else fill for i in range(n)]
+        if k == 0:
+            return []   # (diff(x, 0) is the recorded finding)
+        got = ff.diff(x, k, fill_value=fill)
+    out = []
+    if not np.array_equal(x, keep):
+        out.append(('%s:input-modified:%s' % (fn, dt), items, x.tolist(), 'helper modified its input'))
+    got = np.asarray(got)
+    if got.shape != (n,) or got.tolist() != want or got.dtype.kind != keep.dtype.kind:
+        out.append(('%s:values:%s' % (fn, dt), [str(keep.dtype), [str(v) for v in want]], [str(got.dtype), [str(v) for v in got.tolist()]], '%s(x, %d) on a %s array differs from its definition in that arithmetic' % (fn, k, dt)))
     return out
 
 
@@ -217,6 +255,23 @@ def run_names_case(case):
     r = c.eval('lag', locals={'lag': 'mine'})
     if r != 'mine':
         out.append(('names:locals-over-variable-and-helper', 'mine', repr(r), 'locals override both'))
+    # the helper table is the caller's to replace (`builtins=`): with an empty one the helper names are undefined names like any other,
+    # with one of the caller's own its entries are the helpers
+    names0 = list(c.index)
+    if names0:
+        v0 = names0[0]
+        for tag, table, expr, want in (('empty-table', {}, 'lead(%s)' % v0, 'AttributeError'), ('empty-table', {}, 'exp(%s[0])' % v0, 'AttributeError'),
+                                       ('own-table', {'twice': lambda a: 2 * a}, 'twice(%s)' % v0, 'value'), ('own-table', {'twice': lambda a: 2 * a}, 'dlog(%s)' % v0, 'AttributeError')):   # (the container has a variable called lag)
+            try:
+                got = c.eval(expr, builtins=table)
+                res = 'value'
+            except AttributeError as ex:
+                res = 'AttributeError' if expr.split('(')[0] in str(ex) else 'AttributeError naming something else: %s' % str(ex)[:60]
+            except Exception as ex:
+                res = type(ex).__name__
+            if res != want or (res == 'value' and canon(np.asarray(got, dtype=float)) != canon(2 * np.asarray(c[v0], dtype=float))):
+                out.append(('names:helper-table:%s' % tag, want, res, 'eval(%r, builtins=%s)' % (expr, sorted(table))))
+                break
     if dict(ff.builtins) != bt or ff.builtins['lag'] is not ff.lag:
         out.append(('names:builtins-polluted', 'unchanged', 'changed', 'package-level helper table was altered'))
     e = VectorContainer(spans.make(kind, N)[0])
@@ -278,6 +333,16 @@ def run_block(block, tier, seed):
                         acc.nontrivial += n > 0
                         for key, exp, obs, what in run_helper_case(case):
                             acc.violation(key, case, exp, obs, what)
+        for dt in ('int64', 'complex', 'bool'):
+            for k in range(-6, 7):
+                for fill in (0, -7, 3):
+                    case = dict(kind='helper-exact', fn=block['fn'], k=k, fill=fill, dtype=dt)
+                    if block['fn'] == 'dlog':
+                        continue
+                    acc.evaluations += 1
+                    acc.nontrivial += 1
+                    for key, exp, obs, what in run_helper_exact_case(case):
+                        acc.violation(key, case, exp, obs, what)
         acc.sample(dict(fn=block['fn'], n=3, k=1, fill='nan'), limit=1)
         return acc
     if block['kind'] == 'names':
@@ -313,6 +378,8 @@ def run_block(block, tier, seed):
 def run_one(case):
     if case['kind'] == 'helper':
         return run_helper_case(case)
+    if case['kind'] == 'helper-exact':
+        return run_helper_exact_case(case)
     if case['kind'] == 'names':
         return run_names_case(case)
     return run_eval_case(case)[0]
